@@ -77,9 +77,70 @@ FD = "utils::fd::verif_h_fd::"
 
 C09_OBS = [
     ob("O9.1", FD + "fd_proc_subpath_all", "proc_subpath(fd) for EVERY i32: fd >= 0 or AT_FDCWD => Ok, other negatives => InvalidArgument (descriptor number 0 included)", cost=1),
-    ob("O9.2a", FD + "fd_reopen_plain", "FdExt::reopen on a non-symlink handle, no creation flags, ALL other flag bits: exactly one open_follow(ProcThreadSelf, ., flags minus O_NOFOLLOW); failing fstat => error, no open", stubs=["syscalls::fstatat", "ProcfsHandle::open_follow"], cost=4),
-    ob("O9.2b", FD + "fd_reopen_symlink", "FdExt::reopen on a symlink handle: ELOOP and procfs never consulted", stubs=["syscalls::fstatat", "ProcfsHandle::open_follow"], covers_may_be_unsat=["reopened", "open_follow failed"], cost=4),
-    ob("O9.2c", FD + "fd_reopen_creation_flags", "FdExt::reopen with O_CREAT / O_EXCL / O_TMPFILE (all bit patterns containing them): refused, nothing opened", stubs=["syscalls::fstatat", "ProcfsHandle::open_follow"], covers_may_be_unsat=["reopened", "open_follow failed"], cost=4),
+    ob("O9.2a", FD + "fd_reopen_plain", "FdExt::reopen on a non-symlink handle, no creation flags, ALL other flag bits: exactly one open_follow(ProcThreadSelf, ., flags minus O_NOFOLLOW); failing fstat => error, no open", stubs=["FdExt>::metadata", "ProcfsHandle::open_follow"], cost=4),
+    ob("O9.2b", FD + "fd_reopen_symlink", "FdExt::reopen on a symlink handle: ELOOP and procfs never consulted", stubs=["FdExt>::metadata", "ProcfsHandle::open_follow"], covers_may_be_unsat=["reopened", "open_follow failed"], cost=4),
+    ob("O9.2c", FD + "fd_reopen_creation_flags", "FdExt::reopen with O_CREAT / O_EXCL / O_TMPFILE (all bit patterns containing them): refused, nothing opened", stubs=["FdExt>::metadata", "ProcfsHandle::open_follow"], covers_may_be_unsat=["reopened", "open_follow failed"], cost=4),
+]
+
+DIR = "utils::dir::verif_h_dir::"
+RA_STUBS = ["syscalls::unlinkat", "syscalls::openat_follow", "Dir::read_from"]
+C13_OBS = [
+    ob("O13.1a", DIR + "dir_remove_all_unlink_ok", "utils::remove_all(dir, name), every name <= L, unlinkat succeeds: refused names ('', '.', '..', any '/') make ZERO syscalls and fail; otherwise exactly unlinkat(dir,name,0) and Ok", stubs=RA_STUBS, covers_may_be_unsat=["rmdir-ed", "scanned", "scan open failed"], cost=5),
+    ob("O13.1b", DIR + "dir_remove_all_rmdir_ok", "... unlink fails (any errno), rmdir succeeds: unlinkat(0) then unlinkat(AT_REMOVEDIR), Ok", stubs=RA_STUBS, covers_may_be_unsat=["unlinked", "scanned", "scan open failed"], cost=5),
+    ob("O13.1c", DIR + "dir_remove_all_open_fail", "... unlink, rmdir and the scan open all fail with arbitrary errnos: ENOENT anywhere => Ok, scan open is O_DIRECTORY|O_NOFOLLOW|O_CLOEXEC on (dir,name), other errno => that errno", stubs=RA_STUBS, covers_may_be_unsat=["unlinked", "scanned"], cost=6),
+    ob("O13.1d", DIR + "dir_remove_all_scan", "... scan open succeeds, directory listing fails with arbitrary errno: ENOENT => final unlink/rmdir attempt, else error; sub-directory fd closed", stubs=RA_STUBS, covers_may_be_unsat=["unlinked", "scan open failed"], tiers=("thorough",), cost=8),
+    ob("O13.1e", DIR + "dir_remove_all_any", "... all fault combinations in one query", stubs=RA_STUBS, tiers=("thorough",), cost=10),
+]
+
+PF = "procfs::verif_h_procfs::"
+OPEN_STUBS = ["ProcfsResolver::resolve", "ProcfsBase::into_path", "ProcfsHandle::new_unmasked", "syscalls::fstatfs", "syscalls::statx"]
+O_FETCH_MNT = ob("O6.1", FD + "fd_fetch_mnt_id", "fetch_mnt_id for every statx answer: Some(id) iff the kernel set STATX_MNT_ID[_UNIQUE]; None only for mask-absent / ENOSYS / EINVAL; every other errno is an error (fail closed)", stubs=["syscalls::statx"], cost=3)
+O_SAME_MNT = ob("O6.2a", PF + "procfs_verify_same_mnt", "verify_same_mnt for every handle mount id x statx answer: Ok iff equal, else EXDEV, statx failure => that errno", stubs=["syscalls::statx"], cost=3)
+O_IS_PROCFS = ob("O6.2b", PF + "procfs_verify_is_procfs", "verify_is_procfs for every fstatfs answer: Ok iff f_type == PROC_SUPER_MAGIC, else EXDEV / errno", stubs=["syscalls::fstatfs"], cost=3)
+O_TRY_FROM_FD = ob("O6.3", PF + "procfs_try_from_fd", "ProcfsHandle::try_from_fd under K: Ok only for f_type==procfs and inode 1, mnt_id is the kernel's answer, is_subset iff a probe failed, descriptor closed on refusal", stubs=["syscalls::fstatfs", "syscalls::statx", "FdExt>::metadata", "accessat"], cost=5)
+O_OPEN_UNMASKED = ob("O6.4a", PF + "procfs_open_unmasked", "ProcfsHandle::open (unmasked handle) for every base, sub-path <= L, flag word and K: sub-path lookup is forced O_NOFOLLOW with the caller's other bits verbatim; a descriptor is returned only after statx mount-id equality with the handle AND fstatfs==procfs on that very descriptor; no retry; no leak", stubs=OPEN_STUBS, cost=8)
+O_OPEN_MASKED = ob("O8.1", PF + "procfs_open_masked", "ProcfsHandle::open on a masked (subset/hidepid) handle: ENOENT is retried on at most ONE freshly created handle (which may itself be masked), returned descriptors verified on the handle that produced them, retry handle closed", stubs=OPEN_STUBS, cost=9)
+O_TFF_FAULT = ob("O10.3", PF + "procfs_try_from_fd_fstat_fault", "try_from_fd when the fstat of the candidate handle fails: clean error, no panic, descriptor closed", stubs=["FdExt>::metadata"], covers_may_be_unsat=["masked handle", "unmasked handle"], cost=5)
+
+RP = "resolvers::procfs::verif_h_rprocfs::"
+O2 = "resolvers::openat2::verif_h_openat2::"
+O_RP_CREAT_O2 = ob("O7.1a", RP + "rprocfs_openat2_creation_refused", "ProcfsResolver::Openat2.resolve with every flag word containing O_CREAT / O_EXCL / O_TMPFILE: InvalidArgument and ZERO syscalls", stubs=["syscalls::openat2", "opath_resolve"], covers_may_be_unsat=["resolved", "lookup failed"], cost=3)
+O_RP_CREAT_OP = ob("O7.1b", RP + "rprocfs_opath_creation_refused", "ProcfsResolver::RestrictedOpath.resolve, same", stubs=["syscalls::openat2", "opath_resolve"], covers_may_be_unsat=["resolved", "lookup failed"], cost=3)
+O_RP_MASK = ob("O5.2c", RP + "rprocfs_openat2_dispatch_and_mask", "ProcfsResolver::Openat2.resolve for every non-creation flag word, rflags, path <= L: one openat2(root, path, flags verbatim, resolve = BENEATH|NO_XDEV|NO_MAGICLINKS|rflags, mode 0)", stubs=["syscalls::openat2", "opath_resolve"], covers_may_be_unsat=["refused without"], cost=4)
+O_RP_DISPATCH = ob("O7.1c", RP + "rprocfs_opath_dispatch", "ProcfsResolver::RestrictedOpath.resolve dispatches once to the emulated walk with arguments verbatim", stubs=["syscalls::openat2", "opath_resolve"], covers_may_be_unsat=["refused without"], cost=4)
+O_O2_OPEN = ob("O5.2a", O2 + "openat2_open_mask", "openat2::open for every flag word / rflags / path <= L: openat2(root, path, flags verbatim, resolve = IN_ROOT|NO_MAGICLINKS|rflags, mode 0)", stubs=["syscalls::openat2"], cost=3)
+O_O2_RESOLVE = ob("O5.2b", O2 + "openat2_resolve_mask", "openat2::resolve: O_PATH (+O_NOFOLLOW iff no_follow_trailing), resolve = IN_ROOT|NO_MAGICLINKS|rflags", stubs=["syscalls::openat2"], cost=3)
+O_O2_EAGAIN = ob("O10.1a", O2 + "openat2_resolve_eagain16", "openat2::resolve when openat2 keeps answering EAGAIN: exactly 16 attempts, then SafetyViolation (never a partial result), nothing leaked", stubs=["syscalls::openat2"], cost=6)
+O_O2_ENOSYS = ob("O10.1b", O2 + "openat2_resolve_enosys", "openat2::resolve on ENOSYS: NotSupported after one call", stubs=["syscalls::openat2"], cost=3)
+O_O2_EMFILE = ob("O10.1c", O2 + "openat2_resolve_emfile", "openat2::resolve on EMFILE: OsError(EMFILE) after one call, no retry", stubs=["syscalls::openat2"], cost=3)
+
+IMP = "resolvers::opath::imp::verif_h_imp::"
+MFL_STUBS = ["FdExt>::metadata", "syscalls::geteuid", "sysctl_read_parse", "ProcfsHandle::new"]
+C15_OBS = [
+    ob("O15.1", IMP + "imp_may_follow_link", "may_follow_link(dir, link) == fs/namei.c rule for EVERY dir mode, dir uid, link uid, euid (u32 each) and every u32 sysctl value; refusal is EACCES", stubs=MFL_STUBS, covers_may_be_unsat=["stat failure refuses"], cost=4),
+    ob("O15.2", IMP + "imp_may_follow_link_dirstat_fails", "a failing fstat of the directory never yields permission to follow", stubs=MFL_STUBS, covers_may_be_unsat=["sysctl off", "own link", "link owned", "refused with EACCES"], cost=3),
+    ob("O15.3", IMP + "imp_may_follow_link_linkstat_fails", "a failing fstat of the link never yields permission to follow", stubs=MFL_STUBS, covers_may_be_unsat=["sysctl off", "own link", "link owned", "refused with EACCES"], cost=3),
+    ob("O15.4", FD + "fd_metadata_body", "FdExt::metadata real body == the metadata contract stub used above (mode/uid/ino of that descriptor, errno on failure)", stubs=["syscalls::fstatat"], tiers=("thorough",), cost=10, timeout={"thorough": 3000}),
+]
+
+CU = "capi::utils::verif_h_capi_utils::"
+CP = "capi::procfs::verif_h_capi_procfs::"
+CC = "capi::core::verif_h_capi_core::"
+CAPI_STUBS = ["RootRef::create", "store_error"]
+C17_OBS = [
+    ob("O17.1a", CU + "capi_copy_path_into_buffer", "copy_path_into_buffer for every body <= L bytes (no NUL) x buffer size 0..=L+2: returns the full length, writes exactly min(len, size) bytes equal to the prefix, canaries around the buffer untouched (+ CBMC pointer checks)", features="capi", cost=4),
+    ob("O17.1b", CU + "capi_copy_path_null_buffer", "same with a NULL buffer and any size: returns the length, writes nothing", features="capi", covers_may_be_unsat=["truncated copy", "buffer larger", "zero-sized"], cost=3),
+    ob("O17.2", CU + "capi_borrowed_fd_all", "CBorrowedFd::try_as_borrowed_fd for EVERY i32: negative => InvalidArgument, else the same number", features="capi", cost=1),
+    ob("O17.3", CU + "capi_parse_path_null", "parse_path(NULL) => InvalidArgument", features="capi", cost=1),
+    ob("O17.4", CP + "capi_procfs_base_all", "CProcfsBase -> ProcfsBase for EVERY u64: Ok exactly for the three PATHRS_PROC_* values read from include/pathrs.h by the check at run time, mapped to the right base", features="capi", cost=1),
+    ob("O17.5a", CC + "capi_mknod_bad_args", "pathrs_inroot_mknod with every negative fd / a NULL path: error id <= -4096, Root::create never reached, no descriptor touched", features="capi", stubs=CAPI_STUBS, cost=4),
+    ob("O17.5b", CC + "capi_resolve_bad_args", "pathrs_inroot_resolve with every negative fd / a NULL path: same", features="capi", stubs=["RootRef::resolve", "store_error"], cost=4),
+    ob("O17.6", CC + "capi_mknod_decode", "pathrs_inroot_mknod for EVERY mode/dev: invalid S_IFMT (socket, link, none, undefined) => error id and no create", features="capi", stubs=CAPI_STUBS, cost=5),
+]
+C14_CAPI = [
+    ob("O14.8", CC + "capi_mknod_decode", "pathrs_inroot_mknod S_IFMT decoding for EVERY mode/dev: REG/DIR/FIFO/CHR/BLK -> matching InodeType with perm = mode minus type bits and dev verbatim", features="capi", stubs=CAPI_STUBS, cost=5),
+    ob("O14.9", CC + "capi_mkdir_mode", "pathrs_inroot_mkdir: Directory with perm = mode minus type bits", features="capi", stubs=CAPI_STUBS, tiers=("thorough",), cost=4),
+    ob("O14.10", CC + "capi_creat_mode", "pathrs_inroot_creat: create_file(flags verbatim, perm = mode minus type bits)", features="capi", stubs=["RootRef::create_file", "store_error"], tiers=("thorough",), cost=4),
 ]
 
 PROPERTIES = {
@@ -93,7 +154,7 @@ PROPERTIES = {
         "assumptions": ["Resolver::resolve returns an arbitrary descriptor inside the root or an arbitrary error (contract stub)",
                         "syscall wrappers replaced by the nondeterministic kernel K at the crate::syscalls boundary",
                         "descriptor numbers concrete (3..); fd-number dependence decided under C09"],
-        "obligations": [O_RESOLVE_PARENT] + C14_OPS + [o for o in O_ERR_EQUIV],
+        "obligations": [O_RESOLVE_PARENT] + C14_OPS + C14_CAPI + [o for o in O_ERR_EQUIV],
     },
     "C09": {
         "explanation": "C09: the fd -> /proc/thread-self/fd/N mapping is decided for every 32-bit descriptor number; FdExt::reopen is executed "
@@ -101,5 +162,46 @@ PROPERTIES = {
         "outside": "that /proc/thread-self/fd/N denotes the handle's inode whatever happened to its path (kernel magic-link semantics); the procfs side of open_follow (C06/C07); decimal rendering of N (format! is stubbed)",
         "assumptions": ["ProcfsHandle::open_follow replaced by a recording stub with arbitrary result", "fstatat answered by K"],
         "obligations": C09_OBS,
+    },
+    "C13": {
+        "explanation": "C13 (sequential part): utils::remove_all is executed for every name of up to L bytes against an arbitrary kernel. "
+                       "Decided: which names are refused before any syscall ('.', '..', '', anything with '/'), the exact call sequence "
+                       "unlinkat -> rmdir -> O_DIRECTORY|O_NOFOLLOW open -> listing -> unlinkat/rmdir, ENOENT tolerance at each step, and that the "
+                       "sub-directory descriptor is closed. Root::remove_all's (parent, name) split is O14.0 + the remove_all top harness of C03.",
+        "outside": "recursion below the first directory listing (rustix Dir cannot be modelled: listing always fails); concurrent remove_all; names longer than L",
+        "assumptions": ["Dir::read_from always fails with an arbitrary errno", "kernel K"],
+        "obligations": C13_OBS,
+    },
+    "C06": {
+        "explanation": "C06: every verification primitive (fetch_mnt_id, verify_same_mnt, verify_is_procfs, try_from_fd) is decided for every kernel answer, and "
+                       "ProcfsHandle::open is executed with the procfs resolver replaced by a stub returning an ARBITRARY descriptor: whatever the resolver "
+                       "returns, it leaves open() only after mount-id equality and f_type==procfs were established on that descriptor.",
+        "outside": "what a real kernel reports for real over-mounts (statx/fstatfs contracts assumed); racing mounts; that fsopen/open_tree handles are private; the resolver walks themselves (C07)",
+        "assumptions": ["ProcfsResolver::resolve returns an arbitrary descriptor or error", "statx/fstatfs answers arbitrary but consistent per descriptor"],
+        "obligations": [O_FETCH_MNT, O_SAME_MNT, O_IS_PROCFS, O_TRY_FROM_FD, O_OPEN_UNMASKED],
+    },
+    "C08": {
+        "explanation": "C08: ProcfsHandle::open on a masked handle with an arbitrary resolver/kernel; the stub for new_unmasked counts handles created during one lookup and may return a handle that is itself masked.",
+        "outside": "real hidepid/subset mounts (K covers them as 'probe fails'); wall time",
+        "assumptions": ["new_unmasked replaced by a counting stub returning an arbitrary (possibly masked) handle"],
+        "obligations": [O_OPEN_MASKED, O_OPEN_UNMASKED],
+    },
+    "C07": {
+        "explanation": "C07 (partial): the creation-flag refusal of both procfs resolvers is decided for every 32-bit flag word; ProcfsHandle::open's forced O_NOFOLLOW for every flag word (O6.4a); the kernel resolver's fixed confinement mask.",
+        "outside": "the emulated procfs walk itself ('..', absolute links, final-component table) and equality of outcomes between the two resolvers on a live /proc: the walk (opath_resolve) is a heap-container loop this engine does not finish (DESIGN §1.2)",
+        "assumptions": ["opath_resolve replaced by a recording stub in the dispatch harnesses"],
+        "obligations": [O_RP_CREAT_O2, O_RP_CREAT_OP, O_RP_MASK, O_RP_DISPATCH, O_OPEN_UNMASKED],
+    },
+    "C15": {
+        "explanation": "C15: may_follow_link is executed with the two fstat answers, geteuid and the cached sysctl all symbolic at full width; the oracle is a transcription of fs/namei.c:may_follow_link.",
+        "outside": "where in the walk it is called (trailing vs intermediate link: inside do_resolve, not executable here); fsuid != euid processes (the code uses euid); uid_valid() of the parent owner",
+        "assumptions": ["FdExt::metadata replaced by its contract stub (decided separately: O15.4)", "sysctl_read_parse::<u32> returns an arbitrary u32", "geteuid arbitrary"],
+        "obligations": C15_OBS,
+    },
+    "C17": {
+        "explanation": "C17: the C-boundary helpers are decided for every descriptor number, every procfs-base word, every link body <= L x buffer size, and the entry points pathrs_inroot_mknod / pathrs_inroot_resolve for every negative descriptor and NULL path with Root methods and store_error replaced by recording stubs.",
+        "outside": "the other pathrs_* entry points (same closure pattern, not each executed); link bodies longer than L; that callers' buffers really are bufsize bytes",
+        "assumptions": ["store_error returns some id <= -4096 (its own behaviour: C16)", "Root::create / resolve replaced by recording stubs"],
+        "obligations": C17_OBS,
     },
 }
